@@ -564,3 +564,39 @@ def append_atomic(ctx, P, rule="APPEND-ATOMIC"):
                "%d of %d check_offsets calls come after `%s`: a bad offset array in a later column is found after an earlier column has been extended"
                % (len(late), len(checks), _norm(src[adv[0]:adv[0] + 40]).split(";")[0]))
     ctx.ob(rule, "instances", n >= 4, "c/tskit/tables.c", "%d appenders with two or more ragged columns" % n)
+
+
+# ------------------------------------------------------------------------------------------------------------------------
+# PY-SCHEMA-RAW
+
+def schema_raw(ctx, py, rule="PY-SCHEMA-RAW", mod="tables"):
+    """copy(), pickling and fromdict(asdict()) of a table go through asdict().  equals() compares the stored schema TEXT, so the
+    dict must carry that text: `repr(self.metadata_schema)` is the re-canonicalised form of the parsed schema and differs from
+    the stored bytes for any schema written by another tool (`{"codec":"json" }`)."""
+    ctx.rule(rule, "every asdict() of tskit.tables puts the STORED metadata-schema text (read from the low-level object: "
+                   "`ll_table.metadata_schema`, `_ll_reference_sequence.metadata_schema`, `_ll_tables…`) under the key "
+                   "\"metadata_schema\", never `repr()` / `str()` of the parsed MetadataSchema: a copy or pickle must equal its source "
+                   "byte for byte")
+    m = py.mod(mod)
+    n = 0
+    for qn, fn in m.funcs.items():
+        if qn.split(".")[-1] != "asdict":
+            continue
+        vals = []
+        for x in ast.walk(fn):
+            if isinstance(x, ast.Assign) and len(x.targets) == 1 and isinstance(x.targets[0], ast.Subscript) \
+                    and isinstance(x.targets[0].slice, ast.Constant) and x.targets[0].slice.value == "metadata_schema":
+                vals.append(x.value)
+            if isinstance(x, ast.Dict):
+                for k, v in zip(x.keys, x.values):
+                    if isinstance(k, ast.Constant) and k.value == "metadata_schema":
+                        vals.append(v)
+        for i, v in enumerate(vals):
+            n += 1
+            txt = ast.unparse(v)
+            recanon = isinstance(v, ast.Call) and isinstance(v.func, ast.Name) and v.func.id in ("repr", "str")
+            raw = re.search(r"\b_?ll_\w+", txt) is not None
+            ok = raw and not recanon
+            ctx.ob(rule, "%s@%d" % (qn, i), ok, m.loc(v), "`%s` is the stored text" % txt[:60] if ok else
+                   "`%s` re-canonicalises the schema: the copy / pickle / dict round trip of a table whose stored schema text is not canonical is unequal to its source" % txt[:60])
+    ctx.ob(rule, "instances", n >= 2, m.rel, "%d metadata_schema entries in asdict methods" % n)
